@@ -17,6 +17,7 @@ use crate::types::{BoundingBox, Color, Vec3};
 use crate::version::WmoVersion;
 use crate::wmo_group_types::{WmoGroupFlags, WmoGroupHeader};
 use crate::wmo_types::{WmoDoodadSet, WmoFlags, WmoPortalReference};
+use std::io::Write;
 use crate::writer::WmoWriter;
 
 fn info<const N: usize>(out: &Sink<N>, id: &[u8; 4], at: usize, size: u32) -> ChunkInfo {
@@ -25,71 +26,119 @@ fn info<const N: usize>(out: &Sink<N>, id: &[u8; 4], at: usize, size: u32) -> Ch
     ChunkInfo { id: ChunkId { bytes: [id[3], id[2], id[1], id[0]] }, offset: at as u64, size }
 }
 
-/// root with one light -> parse_root_file: header counts, ambient colour, bounding box and the light come back unchanged
+fn disc(chunks: Vec<ChunkInfo>, file_size: u64) -> ChunkDiscovery {
+    ChunkDiscovery { chunks, file_size, malformed_chunks: 0, unknown_chunks: 0, truncated: false }
+}
+
+/// MOHD as write_header emits it -> parse_root_file: counts, ambient colour and bounding box come back.  The crate's reader takes
+/// 64 bytes; the 4 bytes after the 60 written stand for the next chunk's id (known finding mohd-size: flags/num_lod not compared)
 #[kani::proof]
 #[kani::stub(std::fmt::format, vio::fmt_stub)]
 #[kani::stub(std::hash::RandomState::new, common::rs_stub)]
 #[kani::unwind(12)]
-fn c15r_root_light_via_root_parser() {
+fn c15r_header_via_root_parser() {
     let v = ver_classic_to_mop();
     let mut root = empty_root(v);
-    root.lights.push(any_light());
-    let mut out = Sink::<144>::new();
-    let r = WmoWriter::new().write_root(&mut out, &root, v);
-    assert!(r.is_ok() && out.pos == 136);
-    let d = ChunkDiscovery { chunks: vec![info(&out, b"MVER", 0, 4), info(&out, b"MOHD", 12, 60), info(&out, b"MOLT", 80, 48)], file_size: 136,
-        malformed_chunks: 0, unknown_chunks: 0, truncated: false };
-    let mut src = Src::<144>::new(out.buf, out.pos);
+    root.lights.push(c_light());
+    root.lights.push(c_light());
+    let mut out = Sink::<72>::new();
+    let r = WmoWriter::new().write_header(&mut out, &root, v);
+    assert!(r.is_ok() && out.pos == 68);
+    let d = disc(vec![info(&out, b"MOHD", 0, 60)], 72);
+    let mut src = Src::<72>::new(out.buf, 72);
     let p = parse_root_file(&mut src, d);
-    assert!(p.is_ok(), "root written by write_root is rejected by parse_root_file");
+    assert!(p.is_ok(), "MOHD written by write_header is rejected by parse_root_file");
     let q = p.unwrap();
-    kani::cover!(q.lights.len() == 1);
-    assert!(q.version == 17);
-    assert!(q.n_materials == 0 && q.n_groups == 0 && q.n_portals == 0 && q.n_lights == 1 && q.n_doodad_names == 0 && q.n_doodad_defs == 0
+    kani::cover!(q.n_lights == 2);
+    assert!(q.n_materials == 0 && q.n_groups == 0 && q.n_portals == 0 && q.n_lights == 2 && q.n_doodad_names == 0 && q.n_doodad_defs == 0
         && q.n_doodad_sets == 0, "MOHD counts read by parse_root_file != list lengths");
     let c = &root.header.ambient_color;
     assert!(q.ambient_color[0] == c.b && q.ambient_color[1] == c.g && q.ambient_color[2] == c.r && q.ambient_color[3] == c.a, "ambient colour is not BGRA");
     assert!(v3eq(&root.bounding_box.min, q.bounding_box_min[0], q.bounding_box_min[1], q.bounding_box_min[2])
         && v3eq(&root.bounding_box.max, q.bounding_box_max[0], q.bounding_box_max[1], q.bounding_box_max[2]), "bounding box changed in write -> parse_root_file");
-    // known finding mohd-size: MOHD is written with 60 bytes, flags (u16 at 0x3C) are outside the chunk - not compared
-    assert!(q.lights.len() == 1, "light count changed in write -> parse_root_file");
-    let (a, b) = (&root.lights[0], &q.lights[0]);
-    assert!(b.light_type == a.light_type as u8 && v3eq(&a.position, b.position[0], b.position[1], b.position[2])
-        && a.intensity.to_bits() == b.intensity.to_bits() && a.attenuation_end.to_bits() == b.attenuation_end.to_bits(), "light changed in write -> parse_root_file");
     std::mem::forget((r, root, q));
 }
 
-/// root with a portal reference, a doodad set and two textures -> parse_root_file
+/// MOLT -> parse_root_file (record count from the chunk size, field order)
+#[kani::proof]
+#[kani::stub(std::fmt::format, vio::fmt_stub)]
+#[kani::stub(std::hash::RandomState::new, common::rs_stub)]
+#[kani::unwind(12)]
+fn c15r_light_via_root_parser() {
+    let l = [any_light()];
+    let mut out = Sink::<64>::new();
+    let r = WmoWriter::new().write_lights(&mut out, &l, ver_classic_to_mop());
+    assert!(r.is_ok() && out.pos == 56);
+    let d = disc(vec![info(&out, b"MOLT", 0, 48)], 56);
+    let mut src = Src::<64>::new(out.buf, out.pos);
+    let p = parse_root_file(&mut src, d);
+    assert!(p.is_ok(), "MOLT written by write_lights is rejected by parse_root_file");
+    let q = p.unwrap();
+    kani::cover!(q.lights.len() == 1);
+    assert!(q.lights.len() == 1, "light count changed in write -> parse_root_file");
+    let (a, b) = (&l[0], &q.lights[0]);
+    assert!(b.light_type == a.light_type as u8 && (b.use_attenuation != 0) == a.use_attenuation && v3eq(&a.position, b.position[0], b.position[1], b.position[2])
+        && a.intensity.to_bits() == b.intensity.to_bits() && a.attenuation_start.to_bits() == b.attenuation_start.to_bits()
+        && a.attenuation_end.to_bits() == b.attenuation_end.to_bits(), "light changed in write -> parse_root_file");
+    assert!(b.color[0] == a.color.b && b.color[1] == a.color.g && b.color[2] == a.color.r && b.color[3] == a.color.a, "light colour is not BGRA");
+    std::mem::forget((r, l, q));
+}
+
+/// MOPR + MODS -> parse_root_file
 #[kani::proof]
 #[kani::stub(std::fmt::format, vio::fmt_stub)]
 #[kani::stub(std::hash::RandomState::new, common::rs_stub)]
 #[kani::unwind(24)]
-fn c15r_root_records_via_root_parser() {
-    let v = ver_classic_to_mop();
-    let mut root = empty_root(v);
+fn c15r_records_via_root_parser() {
+    let refs = [WmoPortalReference { portal_index: kani::any(), group_index: kani::any(), side: kani::any() },
+        WmoPortalReference { portal_index: kani::any(), group_index: kani::any(), side: kani::any() }];
     let a = ascii::<3>();
-    root.textures.push(string_of(&a));
-    root.portal_references.push(WmoPortalReference { portal_index: kani::any(), group_index: kani::any(), side: kani::any() });
-    root.doodad_sets.push(WmoDoodadSet { name: string_of(&a), start_doodad: kani::any(), n_doodads: kani::any() });
-    let mut out = Sink::<160>::new();
-    let r = WmoWriter::new().write_root(&mut out, &root, v);
-    assert!(r.is_ok() && out.pos == 80 + 12 + 16 + 40);
-    let d = ChunkDiscovery { chunks: vec![info(&out, b"MVER", 0, 4), info(&out, b"MOHD", 12, 60), info(&out, b"MOTX", 80, 4), info(&out, b"MOPR", 92, 8),
-        info(&out, b"MODS", 108, 32)], file_size: 148, malformed_chunks: 0, unknown_chunks: 0, truncated: false };
-    let mut src = Src::<160>::new(out.buf, out.pos);
+    let sets = [WmoDoodadSet { name: string_of(&a), start_doodad: kani::any(), n_doodads: kani::any() }];
+    let w = WmoWriter::new();
+    let mut out = Sink::<64>::new();
+    let r = w.write_portal_references(&mut out, &refs);
+    let r2 = w.write_doodad_sets(&mut out, &sets);
+    assert!(r.is_ok() && r2.is_ok() && out.pos == 64);
+    let d = disc(vec![info(&out, b"MOPR", 0, 16), info(&out, b"MODS", 24, 32)], 64);
+    let mut src = Src::<64>::new(out.buf, out.pos);
     let p = parse_root_file(&mut src, d);
-    assert!(p.is_ok(), "root written by write_root is rejected by parse_root_file");
+    assert!(p.is_ok(), "MOPR/MODS written by the chunk writers are rejected by parse_root_file");
     let q = p.unwrap();
-    kani::cover!(q.portal_refs.len() == 1);
-    assert!(q.n_doodad_sets == 1 && q.doodad_sets.len() == 1 && q.portal_refs.len() == 1 && q.textures.len() == 1, "list lengths changed in write -> parse_root_file");
-    let t = q.textures[0].as_bytes();
-    assert!(t.len() == 3 && t[0] == a[0] && t[1] == a[1] && t[2] == a[2], "texture name changed in write -> parse_root_file");
-    assert!(q.portal_refs[0].portal_index == root.portal_references[0].portal_index && q.portal_refs[0].group_index == root.portal_references[0].group_index
-        && q.portal_refs[0].side as u16 == root.portal_references[0].side, "portal reference changed in write -> parse_root_file");
+    kani::cover!(q.portal_refs.len() == 2);
+    assert!(q.doodad_sets.len() == 1 && q.portal_refs.len() == 2, "list lengths changed in write -> parse_root_file");
+    assert!(q.portal_refs[1].portal_index == refs[1].portal_index && q.portal_refs[1].group_index == refs[1].group_index
+        && q.portal_refs[1].side as u16 == refs[1].side && q.portal_refs[0].portal_index == refs[0].portal_index, "portal reference changed in write -> parse_root_file");
     let s = &q.doodad_sets[0];
-    assert!(s.name[0] == a[0] && s.name[2] == a[2] && s.name[3] == 0 && s.start_index == root.doodad_sets[0].start_doodad && s.count == root.doodad_sets[0].n_doodads,
+    assert!(s.name[0] == a[0] && s.name[2] == a[2] && s.name[3] == 0 && s.start_index == sets[0].start_doodad && s.count == sets[0].n_doodads,
         "doodad set changed in write -> parse_root_file");
-    std::mem::forget((r, root, q));
+    std::mem::forget((r, r2, refs, sets, q));
+}
+
+/// MOGN + MOGI -> parse_root_file (names concrete: Mogn::parse splits at NULs)
+#[kani::proof]
+#[kani::stub(std::fmt::format, vio::fmt_stub)]
+#[kani::stub(std::hash::RandomState::new, common::rs_stub)]
+#[kani::unwind(12)]
+fn c15r_group_info_via_root_parser() {
+    let g = [any_group_info(String::from("grp"))];
+    let w = WmoWriter::new();
+    let mut out = Sink::<64>::new();
+    let r = w.write_group_names(&mut out, &g);
+    let r2 = w.write_group_info(&mut out, &g, ver_classic_to_mop());
+    assert!(r.is_ok() && r2.is_ok() && out.pos == 52);
+    let d = disc(vec![info(&out, b"MOGN", 0, 4), info(&out, b"MOGI", 12, 32)], 52);
+    let mut src = Src::<64>::new(out.buf, out.pos);
+    let p = parse_root_file(&mut src, d);
+    assert!(p.is_ok(), "MOGN/MOGI written by the chunk writers are rejected by parse_root_file");
+    let q = p.unwrap();
+    kani::cover!(q.group_info.len() == 1);
+    assert!(q.group_names.len() == 1 && q.group_info.len() == 1, "group list lengths changed in write -> parse_root_file");
+    assert!(q.group_names[0].as_bytes() == b"grp", "group name changed in write -> parse_root_file");
+    let (a, b) = (&g[0], &q.group_info[0]);
+    assert!(b.flags == a.flags.bits() && v3eq(&a.bounding_box.min, b.bounding_box_min[0], b.bounding_box_min[1], b.bounding_box_min[2])
+        && v3eq(&a.bounding_box.max, b.bounding_box_max[0], b.bounding_box_max[1], b.bounding_box_max[2]) && b.name_offset == 0,
+        "group info changed in write -> parse_root_file");
+    std::mem::forget((r, r2, g, q));
 }
 
 /// witness of known finding mohd-size: a root without any list (MVER + MOHD only) is rejected by parse_wmo
@@ -107,7 +156,7 @@ fn c15r_root_mohd_size_witness() {
     assert!(r.is_ok());
     let mut src = Src::<96>::new(out.buf, out.pos);
     let p = parse_wmo(&mut src);
-    assert!(p.is_ok(), "MOHD: root written by write_root (60-byte MOHD) is rejected by parse_wmo (64-byte MOHD)");
+    assert!(p.is_ok(), "[mohd-size] MOHD: root written by write_root (60-byte MOHD) is rejected by parse_wmo (64-byte MOHD)");
     std::mem::forget((r, root, p));
 }
 
@@ -127,7 +176,7 @@ fn c15r_group_via_parse_wmo_witness() {
     let mut src = Src::<96>::new(out.buf, out.pos);
     let p = parse_wmo(&mut src);
     let ok = match &p { Ok(ParsedWmo::Group(q)) => q.vertex_positions.len() == 1, _ => false };
-    assert!(ok, "MOGP: group written by write_group does not come back from parse_wmo (36-byte group header instead of 68)");
+    assert!(ok, "[mogp-header] MOGP: group written by write_group does not come back from parse_wmo (36-byte group header instead of 68)");
     std::mem::forget((r, g, p));
 }
 
@@ -136,13 +185,13 @@ fn c15r_group_via_parse_wmo_witness() {
 #[kani::stub(std::hash::RandomState::new, common::rs_stub)]
 #[kani::unwind(12)]
 fn c15_discovery_canary() {
-    let root = empty_root(WmoVersion::Classic);
-    let mut out = Sink::<96>::new();
-    let r = WmoWriter::new().write_root(&mut out, &root, WmoVersion::Classic);
-    let d = ChunkDiscovery { chunks: vec![info(&out, b"MVER", 0, 4)], file_size: 80, malformed_chunks: 0, unknown_chunks: 0, truncated: false };
-    let mut src = Src::<96>::new(out.buf, out.pos);
+    let refs = [WmoPortalReference { portal_index: kani::any(), group_index: kani::any(), side: kani::any() }];
+    let mut out = Sink::<16>::new();
+    let r = WmoWriter::new().write_portal_references(&mut out, &refs);
+    let d = disc(vec![info(&out, b"MOPR", 0, 8)], 16);
+    let mut src = Src::<16>::new(out.buf, out.pos);
     let p = parse_root_file(&mut src, d);
-    let ver = match &p { Ok(q) => q.version, Err(_) => 0 };
-    std::mem::forget((r, root, p));
-    assert!(ver != 17, "canary: must be reported as failing");
+    let side = match &p { Ok(q) => q.portal_refs[0].side, Err(_) => 0 };
+    std::mem::forget((r, refs, p));
+    assert!(side != 0x1234, "canary: must be reported as failing");
 }
